@@ -1190,7 +1190,19 @@ def _outer_names(node: ast.AST) -> Collection[str]:
     used_names = set()
     bound_names = set()
     outer_names = set()
+    # What a comprehension or a lambda binds is not bound in the rest of the function
+    inner_bindings = {
+        name
+        for inner in ast.walk(node)
+        if isinstance(inner, (ast.ListComp, ast.SetComp, ast.DictComp, ast.GeneratorExp, ast.Lambda))
+        for target in (
+            [inner.args] if isinstance(inner, ast.Lambda) else [g.target for g in inner.generators]
+        )
+        for name in ast.walk(target)
+    }
     for child in ast.walk(node):
+        if child in inner_bindings:
+            continue
         if isinstance(child, ast.Name):
             used_names.add(child.id)
             if not isinstance(child.ctx, ast.Load):
